@@ -43,11 +43,12 @@ def main():
             shutil.rmtree(scratch, ignore_errors=True)
     with open(os.path.join(ROOT, "SENSITIVITY.md"), "w") as f:
         f.write("# Sensitivity: seeded changes vs. checks\n\n")
-        f.write("Each seeded change (`seeded/<id>/patch.diff`) compiles, passes the 81 existing tests and breaks the named "
+        f.write("Rows with a NOT / HARNESS-ERROR note are changes the check of their own property does not catch (the note says who does, if anyone). "
+                "Each seeded change (`seeded/<id>/patch.diff`) compiles, passes the 81 existing tests and breaks the named "
                 "property (its `demo.py` fails with the change and passes without). The registered quick command of each "
                 "check was run against a scratch worktree of /repo with the change applied "
                 "(`tools/matrix.py`; exit 1 = caught, 0 = missed, 2 = harness error).\n\n")
-        f.write("| seeded change | breaks | change | caught by | missed by | first violation of the target check |\n|---|---|---|---|---|---|\n")
+        f.write("| seeded change | breaks | change | caught by | missed by | first violation of the target check (or note) |\n|---|---|---|---|---|---|\n")
         for meta, res in rows:
             caught = [p for p, r in res.items() if r[0] == 1]
             missed = [p for p, r in res.items() if r[0] == 0]
@@ -55,7 +56,7 @@ def main():
             t = res.get(meta["breaks_property"])
             f.write(f"| {meta['id']} | {meta['breaks_property']} | {meta['change']} | {' '.join(caught) or '-'} | "
                     f"{' '.join(missed) or '-'}{(' (harness error: ' + ' '.join(err) + ')') if err else ''} | "
-                    f"{(t[2] if t else '').replace('|', '/')} ({t[1]:.0f}s) |\n")
+                    f"{(meta.get('note') or (t[2] if t else '')).replace('|', '/')} ({t[1]:.0f}s) |\n")
     print("wrote SENSITIVITY.md")
 
 
